@@ -22,6 +22,8 @@ use aranya_policy_module::{Module, ModuleData};
 use aranya_policy_vm::{Machine, Value};
 use vh::{fnv, hex, policykit as pk, Args, Recorder, Rng};
 
+/// in-process recompilations per policy (plus 2 fresh child processes on every 4th case)
+const INPROC_COMPILES: usize = 8;
 const CMD_BOILER: &str = "    seal { return envelope::do_seal(payload) }\n    open { return envelope::do_open(payload, envelope) }\n";
 
 // ------------------------------------------------------------------ policy generator
@@ -134,6 +136,37 @@ fn gen_policy(rng: &mut Rng) -> Policy {
     items.push(format!(
         "finish function {ff}(x int, s string) {{\n    emit {x0} {{ a: x, b: s, c: true, d: {ge} }}\n}}\n"
     ));
+    // struct composition from SEVERAL `...source` variables, in code (a function, every command
+    // policy, every action): the order in which the compiler expands the sources must not depend
+    // on anything but the text
+    let nparts = rng.range(2, 4) as usize;
+    let parts: Vec<(String, String, String)> = (0..nparts)
+        .map(|_| (name(rng, "P", &mut used), name(rng, "g", &mut used), name(rng, "m", &mut used)))
+        .collect();
+    for (pn, pf_, mkp) in &parts {
+        items.push(format!("struct {pn} {{ {pf_} int }}\n"));
+        items.push(format!("function {mkp}(x int) struct {pn} {{\n    return {pn} {{ {pf_}: x }}\n}}\n"));
+    }
+    let comp = name(rng, "S", &mut used);
+    let comp_e = name(rng, "f", &mut used);
+    items.push(format!(
+        "struct {comp} {{ {comp_e} int, {} }}\n",
+        parts.iter().map(|(_, f, _)| format!("{f} int")).collect::<Vec<_>>().join(", ")
+    ));
+    // `let v_i = mk_i(<arg>)` lines + the composed literal, sources in a random order
+    let compose = |rng: &mut Rng, arg: &str, ind: &str, tag: &str| -> (String, String) {
+        let mut order: Vec<usize> = (0..nparts).collect();
+        rng.shuffle(&mut order);
+        let lets = (0..nparts).map(|i| format!("{ind}let v{tag}{i} = {}({arg})\n", parts[i].2)).collect::<String>();
+        let lit = format!("{comp} {{ {comp_e}: {arg}, {} }}", order.iter().map(|i| format!("...v{tag}{i}")).collect::<Vec<_>>().join(", "));
+        (lets, lit)
+    };
+    let combf = name(rng, "p", &mut used);
+    {
+        let (lets, lit) = compose(rng, "x", "    ", "a");
+        items.push(format!("function {combf}(x int) struct {comp} {{\n{lets}    return {lit}\n}}\n"));
+    }
+    let last_part_field = parts[nparts - 1].1.clone();
     // commands + actions
     let mut calls = vec![];
     let ncmd = rng.range(1, 3);
@@ -149,17 +182,22 @@ fn gen_policy(rng: &mut Rng) -> Policy {
             Some(fl) => format!("        let st = {mk}(y)\n        let z = st.{fl}\n"),
             None => "        let z = y\n".to_string(),
         };
+        let (clets, clit) = compose(rng, "this.n", "        ", "c");
+        let sfield = format!(
+            "{sfield}        let cf = {combf}(z)\n{clets}        let cl = {clit}\n        let zz = saturating_add(cf.{last_part_field}, cl.{})\n",
+            parts[0].1
+        );
         let variant = rng.below(3);
         let body = match variant {
             0 => format!(
-                "        let y = {p}(this.n)\n{sfield}        check this.n > 0 else recall {r}(y)\n        let ex = exists {f}[k: this.n]\n        finish {{\n            create {f}[k: y]=>{{v: z, w: this.t}}\n            emit {x} {{ a: y, b: this.t, c: ex, d: {ge} }}\n            {ff}(z, {gs})\n        }}\n"
+                "        let y = {p}(this.n)\n{sfield}        check this.n > 0 else recall {r}(y)\n        let ex = exists {f}[k: this.n]\n        finish {{\n            create {f}[k: y]=>{{v: zz, w: this.t}}\n            emit {x} {{ a: zz, b: this.t, c: ex, d: {ge} }}\n            {ff}(z, {gs})\n        }}\n"
             ),
             1 => format!(
-                "        let y = {p}(this.n)\n{sfield}        check this.n > 0 else recall {r}(y)\n        let cnt = count_up_to 5 {f}[k: ?]\n        match this.n {{\n            1 => {{\n                finish {{ emit {x} {{ a: cnt, b: {gs}, c: false, d: {ge} }} }}\n            }}\n            _ => {{\n                finish {{\n                    create {f}[k: y]=>{{v: cnt, w: this.t}}\n                    emit {x} {{ a: z, b: this.t, c: true, d: {e0}::{} }}\n                }}\n            }}\n        }}\n",
+                "        let y = {p}(this.n)\n{sfield}        check this.n > 0 else recall {r}(y)\n        let cnt = count_up_to 5 {f}[k: ?]\n        match this.n {{\n            1 => {{\n                finish {{ emit {x} {{ a: cnt, b: {gs}, c: false, d: {ge} }} }}\n            }}\n            _ => {{\n                finish {{\n                    create {f}[k: y]=>{{v: cnt, w: this.t}}\n                    emit {x} {{ a: zz, b: this.t, c: true, d: {e0}::{} }}\n                }}\n            }}\n        }}\n",
                 e0v[e0v.len() - 1]
             ),
             _ => format!(
-                "        let y = {p}(this.n)\n{sfield}        check this.n > 0 else recall {r}(y)\n        let q = query {f}[k: ?]=>{{v: ?, w: ?}}\n        if q is Some {{\n            let g = q or test_fail()\n            finish {{ emit {x} {{ a: g.v, b: g.w, c: true, d: {ge} }} }}\n        }} else {{\n            finish {{\n                create {f}[k: y]=>{{v: z, w: {gs}}}\n                {ff}(y, this.t)\n            }}\n        }}\n"
+                "        let y = {p}(this.n)\n{sfield}        check this.n > 0 else recall {r}(y)\n        let q = query {f}[k: ?]=>{{v: ?, w: ?}}\n        if q is Some {{\n            let g = q or test_fail()\n            finish {{ emit {x} {{ a: g.v, b: g.w, c: true, d: {ge} }} }}\n        }} else {{\n            finish {{\n                create {f}[k: y]=>{{v: zz, w: {gs}}}\n                {ff}(zz, this.t)\n            }}\n        }}\n"
             ),
         };
         items.push(format!(
@@ -167,7 +205,11 @@ fn gen_policy(rng: &mut Rng) -> Policy {
             rng.below(5)
         ));
         let second = if ci > 0 && rng.chance(1, 2) { format!("    publish {c} {{ n: saturating_add(n, 1), t: t }}\n") } else { String::new() };
-        items.push(format!("action {a}(n int, t string) {{\n    publish {c} {{ n: n, t: t }}\n{second}}}\n"));
+        let (alets, alit) = compose(rng, "n", "    ", "b");
+        items.push(format!(
+            "action {a}(n int, t string) {{\n{alets}    let big = {alit}\n    publish {c} {{ n: big.{}, t: t }}\n{second}}}\n",
+            parts[0].1
+        ));
         let vecs = (0..3)
             .map(|_| {
                 vec![
@@ -319,20 +361,26 @@ fn one_case(rec: &mut Recorder, rng: &mut Rng, scratch: &std::path::Path, forms:
         rec.sample(pol.src.clone());
     }
     rec.nontrivial(fnv(&pol.src));
-    // ---- determinism, in process
-    let m2 = match pk::compile(&pol.src, true) {
-        pk::Compiled::Ok(m) => m,
-        _ => {
-            rec.oracle_fail("second compilation of the same text was rejected");
-            return;
-        }
-    };
-    if m1 != m2 {
-        rec.oracle_fail("two compilations of the same policy text gave different modules");
-    }
+    // ---- determinism, in process: every `HashMap` instance has its own `RandomState`, so repeated
+    // compilations already differ when an iteration order leaks (probabilistically: compile often)
     let (c1, r1) = (cbor(&m1).unwrap_or_default(), rk(&m1).unwrap_or_default());
-    if c1 != cbor(&m2).unwrap_or_default() || r1 != rk(&m2).unwrap_or_default() {
-        rec.oracle_fail("two compilations of the same policy text serialize differently");
+    for k in 0..INPROC_COMPILES {
+        let m2 = match pk::compile(&pol.src, true) {
+            pk::Compiled::Ok(m) => m,
+            _ => {
+                rec.oracle_fail("a repeated compilation of the same text was rejected");
+                return;
+            }
+        };
+        rec.count("inproc-recompiles");
+        if m1 != m2 {
+            rec.oracle_fail(format!("two compilations of the same policy text gave different modules (recompilation #{k})"));
+            break;
+        }
+        if c1 != cbor(&m2).unwrap_or_default() || r1 != rk(&m2).unwrap_or_default() {
+            rec.oracle_fail("two compilations of the same policy text serialize differently");
+            break;
+        }
     }
     // ---- determinism, across processes
     if children {
